@@ -3,9 +3,11 @@
 #ifndef TETL_COMPLEX_TANH_HPP
 #define TETL_COMPLEX_TANH_HPP
 
+#include <etl/_cmath/sin.hpp>
 #include <etl/_complex/complex.hpp>
 #include <etl/_complex/cosh.hpp>
 #include <etl/_complex/sinh.hpp>
+#include <etl/_limits/numeric_limits.hpp>
 
 namespace etl {
 
@@ -13,6 +15,13 @@ namespace etl {
 template <typename T>
 [[nodiscard]] constexpr auto tanh(complex<T> const& z) -> complex<T>
 {
+    // Once |Re z| exceeds the number of mantissa digits, tanh(z) is (+-1, +-0) to working
+    // precision, while sinh(z) / cosh(z) would square values of the order e^|Re z| and overflow.
+    auto const x = z.real();
+    if (x > T(etl::numeric_limits<T>::digits) or x < -T(etl::numeric_limits<T>::digits)) {
+        auto const s = etl::sin(T(2) * z.imag());
+        return {x < T(0) ? T(-1) : T(1), s < T(0) ? -T(0) : T(0)};
+    }
     return etl::sinh(z) / etl::cosh(z);
 }
 
